@@ -107,8 +107,10 @@ def gen_ops(r, members, n):
             ops.append([i, 'seek', r.randint(0, 4), 1])
         elif k < .88:
             ops.append([i, 'seek_back', r.randint(1, 5)])       # seek(-min(d, tell()), 1): target stays >= 0
-        elif k < .93:
+        elif k < .91:
             ops.append([i, 'seek', -r.randint(0, size), 2])
+        elif k < .94:
+            ops.append([i, 'disturb', r.randint(0, 400)])      # someone else moves the SHARED file object
         else:
             ops.append([i, 'tell'])
     return ops
@@ -265,6 +267,10 @@ def _history(ctx, case, ar, members, ops, raw, tf):
             d = min(op[2], sh.tell())
             m.seek(-d, 1)
             sh.seek(-d, 1)
+            got = want = None
+        elif kind == 'disturb':
+            if tf is not None:
+                tf.seek(min(op[2], len(raw)))
             got = want = None
         elif kind == 'tell':
             got, want = m.tell(), sh.tell()
